@@ -63,6 +63,12 @@ def Err.isOpFailure : Err → Bool
 
 abbrev R (α : Type) := Except Err α
 
+instance {ε α : Type} [DecidableEq ε] [DecidableEq α] : DecidableEq (Except ε α)
+  | .ok a, .ok b => if h : a = b then isTrue (by rw [h]) else isFalse (by intro h'; cases h'; exact h rfl)
+  | .error a, .error b => if h : a = b then isTrue (by rw [h]) else isFalse (by intro h'; cases h'; exact h rfl)
+  | .ok _, .error _ => isFalse (by intro h; cases h)
+  | .error _, .ok _ => isFalse (by intro h; cases h)
+
 /-! ### Association-list helpers (Python dict with insertion order) -/
 
 def dget (k : String) : Fields → Option Val
@@ -220,7 +226,14 @@ def Val.mongoBool (v : Val) : Bool :=
 
 /-! ### `key.split('.')`, `int(s)` -/
 
-def splitDots (s : String) : List String := s.splitOn "."
+/-- `key.split('.')` on the character list (structural, so that it reduces in the kernel) -/
+def splitDotsChars : List Char → List Char → List String
+  | [], cur => [String.ofList cur.reverse]
+  | c :: r, cur =>
+    if c = '.' then String.ofList cur.reverse :: splitDotsChars r []
+    else splitDotsChars r (c :: cur)
+
+def splitDots (s : String) : List String := splitDotsChars s.toList []
 
 def joinDots (ps : List String) : String := ".".intercalate ps
 
